@@ -123,16 +123,32 @@ class Interp:
         self.models = set()
 
     def run(self, text, arg):
-        blocks = parse_function(text)
-        env = {'_1': ('str', arg)}
-        bb = 'bb0'
-        steps = 0
+        self.blocks = parse_function(text)
+        self.steps = 0
+        return self.run_from('bb0', {'_1': ('str', arg)})
+
+    def run_from(self, bb, env):
+        """straight-line blocks; a switchInt on a bool forks when the bool is symbolic: both arms are run to their return
+        and the results are joined as guarded cells"""
+        blocks = self.blocks
         while True:
-            steps += 1
-            if steps > 200:
+            self.steps += 1
+            if self.steps > 400:
                 raise Unsupported('control flow too long (loop?)')
             nxt = None
             for st in blocks[bb]:
+                m = re.match(r'switchInt\((?:move|copy) (_\d+)\) -> \[0: (bb\d+), otherwise: (bb\d+)\];', st)
+                if m:
+                    c = env.get(m.group(1))
+                    if c is None or c[0] != 'bool':
+                        raise Unsupported('switchInt on a non-bool value')
+                    if c[1] is True or c[1] is False:
+                        nxt = m.group(3) if c[1] else m.group(2)
+                        break
+                    self.models.add('switchInt on a symbolic bool: both arms executed, results joined under the condition')
+                    r_true = self.run_from(m.group(3), dict(env))
+                    r_false = self.run_from(m.group(2), dict(env))
+                    return self.dom.join(c[1], r_true, r_false)
                 r = self.stmt(st, env)
                 if r == 'return':
                     if '_0' not in env:
@@ -230,7 +246,7 @@ class Interp:
         # call?
         m = re.match(r'^(.*?)\((.*)\)$', rhs, re.S)
         if m and not rhs.startswith('(') and not rhs.startswith('const') and not rhs.startswith('copy') \
-                and not rhs.startswith('move') and not rhs.startswith('no_retag'):
+                and not rhs.startswith('move') and not rhs.startswith('no_retag') and not rhs.startswith('Not('):
             fn, argtxt = m.group(1).strip(), m.group(2)
             args = self.split_args(argtxt)
             return self.call(fn, args, env)
@@ -253,6 +269,12 @@ class Interp:
             if t[0] != 'tuple':
                 raise Unsupported('field of non-tuple')
             return t[1][int(m.group(2))]
+        m = re.fullmatch(r'Not\((?:move|copy) (_\d+)\)', rhs)
+        if m:
+            v = env[m.group(1)]
+            if v[0] != 'bool':
+                raise Unsupported('Not of a non-bool')
+            return ('bool', self.dom.not_(v[1]))
         return self.operand(rhs, env)
 
     def call(self, fn, args, env):
@@ -263,6 +285,17 @@ class Interp:
             if c[0] != 'char':
                 raise Unsupported('replace pattern is not a char constant')
             return ('string', self.dom.replace(self.as_str(s), c[1], self.dom.as_const(self.as_str(rep))))
+        m = re.fullmatch(r'core::str::<impl str>::contains::<(?:\[char; \d+\]|char)>', fn)
+        if m:
+            self.models.add('str::contains::<char | [char; N]>(s, pattern): some byte of s is one of the ASCII pattern characters')
+            s_, pat = vals
+            if pat[0] == 'char':
+                chars = [pat[1]]
+            elif pat[0] == 'array' and all(x[0] == 'char' for x in pat[1]):
+                chars = [x[1] for x in pat[1]]
+            else:
+                raise Unsupported('contains pattern is not a constant char / array of chars')
+            return ('bool', self.dom.contains(self.as_str(s_), chars))
         if fn == '<String as Deref>::deref':
             self.models.add('<String as Deref>::deref: identity on the text')
             return ('str', self.as_str(vals[0]))
@@ -322,6 +355,15 @@ class Concrete:
     def const(self, b):
         return bytes(b)
 
+    def contains(self, s, chars):
+        return any(c in s for c in chars)
+
+    def not_(self, b):
+        return not b
+
+    def join(self, cond, a, b):
+        return a if cond else b
+
     def as_const(self, v):
         return v
 
@@ -337,6 +379,24 @@ class Symbolic:
 
     def const(self, b):
         return [(True, x) for x in b]
+
+    def contains(self, s, chars):
+        alts = []
+        for (g, b) in s:
+            if isinstance(b, int):
+                if b in chars:
+                    if g is True:
+                        return True
+                    alts.append(g)
+            else:
+                alts.append(and_(g, z3.Or([b == c for c in chars])))
+        return z3.Or(alts) if alts else False
+
+    def not_(self, b):
+        return (not b) if isinstance(b, bool) else z3.Not(b)
+
+    def join(self, cond, a, b):
+        return [(and_(g, cond), x) for (g, x) in a] + [(and_(g, z3.Not(cond)), x) for (g, x) in b]
 
     def as_const(self, v):
         if any(g is not True or not isinstance(x, int) for g, x in v):
